@@ -171,9 +171,6 @@ def closure_spec(F, clo_term, parent_spec_of):
     if not (src[0] == "call" and src[1] == f"<{tokmodel.RANK_PAIR} as std::iter::IntoIterator>::into_iter"):
         return None
     rp = P.strip(src[2][0])
-    if not (rp[0] == "agg" and rp[1].startswith("adt:" + tokmodel.RANK_PAIR + "::")):
-        return None
-    variant = rp[1].rsplit("::", 1)[-1]
 
     def cap(t):
         s = P.strip(t)
@@ -182,7 +179,44 @@ def closure_spec(F, clo_term, parent_spec_of):
         if s[0] == "field" and P.strip(s[1]) == ("param", 1):
             return parent_spec_of(clo_term[2][s[2]])
         return "?" + P.show_key(s, 30)
-    ops = [cap(o) for o in rp[2]]
+    if rp[0] == "call" and rp[1] in ("std::ops::Fn::call", "std::ops::FnMut::call_mut", "std::ops::FnOnce::call_once") and len(rp[2]) == 2:
+        # the rank pair is built by a callable handed to a helper (`expand(range, |r| RankPair::Suited(high, r), w)`): look at
+        # the captured callable in the enclosing function
+        callee = P.strip(rp[2][0])
+        argt = P.strip(rp[2][1], calls=False)
+        if not (callee[0] == "field" and P.strip(callee[1]) == ("param", 1) and argt[0] == "agg" and argt[1] == "tuple"
+                and len(argt[2]) == 1 and P.strip(argt[2][0]) == ("param", 2)):
+            return None
+        outer = P.strip(clo_term[2][callee[2]])
+        if outer[0] == "fn":
+            adt_, _, var_ = outer[1].rpartition("::")
+            if adt_ != tokmodel.RANK_PAIR:
+                return None
+            variant, ops = var_, ["item"]
+        elif outer[0] == "agg" and outer[1].startswith("closure:") and outer[1][len("closure:"):] in F.fns:
+            g = F.fns[outer[1][len("closure:"):]]
+            if g.cfg.has_loops() or any(b_["term"]["k"] in ("switch", "call") for i_, b_ in enumerate(g.blocks) if i_ in g.cfg.reachable):
+                return None
+            gr = P.strip(P.Prov(g).local(0))
+            if not (gr[0] == "agg" and gr[1].startswith("adt:" + tokmodel.RANK_PAIR + "::")):
+                return None
+            variant = gr[1].rsplit("::", 1)[-1]
+            ops = []
+            for o in gr[2]:
+                so = P.strip(o)
+                if so == ("param", 2):
+                    ops.append("item")
+                elif so[0] == "field" and P.strip(so[1]) == ("param", 1):
+                    ops.append(parent_spec_of(outer[2][so[2]]))
+                else:
+                    ops.append("?" + P.show_key(so, 30))
+        else:
+            return None
+    elif rp[0] == "agg" and rp[1].startswith("adt:" + tokmodel.RANK_PAIR + "::"):
+        variant = rp[1].rsplit("::", 1)[-1]
+        ops = [cap(o) for o in rp[2]]
+    else:
+        return None
     inner = ret[2][1]
     prob = None
     if inner[0] == "agg" and inner[1].startswith("closure:"):
